@@ -441,6 +441,13 @@ class DDPG(RLAlgorithm):
             self.soft_update(self.actor, self.actor_target)
             self.soft_update(self.critic, self.critic_target)
 
+            # The critics hold a detached copy of the actor's encoder: bring it up to
+            # date with the weights that were just trained
+            if self.share_encoders and all(
+                isinstance(net, EvolvableNetwork) for net in [self.actor, self.critic]
+            ):
+                self.share_encoder_parameters()
+
             actor_loss = actor_loss.item()
             critic_loss = critic_loss.item()
 
